@@ -558,13 +558,31 @@ class C02(Prop):
                     tw[rng.randrange(4, len(f) - 2)] ^= 1 << rng.randrange(8)     # payload changed, header and CRC bytes kept
                 seq.append(bytes(tw))
             seq.append(f)
+            # a string that is a frame in everything but its header (wrong start byte, unknown id, or a declared length
+            # one off) WITH a footer that is the CRC of exactly those bytes, offered two or three times in a row after
+            # the valid frame: a rejected header must stay rejected however often the same bytes come back
+            for _ in range(rng.randrange(0, 3)):
+                body = bytearray(f[:-2])
+                how = rng.randrange(3)
+                if how == 0:
+                    body[0] = rng.choice([0x00, 0x54, 0x56, 0xAA, 0xD5, rng.randrange(256)])
+                elif how == 1:
+                    body[3] = rng.choice([9, 10, 0x80 | f[3], 255, rng.randrange(9, 256)])
+                else:
+                    body[1] = (body[1] + rng.choice([1, 255])) & 0xFF
+                x = bytes(body) + ref_crc16_xmodem(bytes(body)).to_bytes(2, "big")
+                seq += [x] * rng.randrange(2, 4)
+                if rng.random() < 0.5:
+                    seq.append(f)
             for d in seq:
                 n += 1
                 exp = accepts(d)
                 r = sf.frame_decode(d)
                 got = None if r.err != 0 else (int(r.fid), r.data)
                 out = rec.handle(d)
-                if got != exp or (exp is None and out != "ignored"):
+                k55 = d.find(b"\x55")
+                exp_disp = accepts(d[k55:]) if k55 >= 0 else None     # the dispatcher judges from the first start byte on
+                if got != exp or (exp_disp is None and out != "ignored"):
                     viol.append({"key": "history-dependent-accept", "case": "sequence " + ",".join(hexs(x) for x in seq),
                                  "what": f"after the same instance had accepted {hexs(f)}, the byte string {hexs(d)} was treated differently from the acceptance predicate",
                                  "expected": repr(exp) + (" / ignored" if exp is None else ""), "observed": f"decoder: {got!r}; dispatcher: {out}",
@@ -586,7 +604,9 @@ class C02(Prop):
                 r = sf.frame_decode(d)
                 got = None if r.err != 0 else (int(r.fid), r.data)
                 out = rec.handle(d)
-                if got != exp or (exp is None and out != "ignored"):
+                k55 = d.find(b"\x55")
+                exp_disp = accepts(d[k55:]) if k55 >= 0 else None
+                if got != exp or (exp_disp is None and out != "ignored"):
                     return {"key": "history-dependent-accept", "what": f"{h} treated differently after the earlier inputs", "expected": repr(exp), "observed": f"{got!r} / {out}"}
             return None
         return self.oracle(obj["case"])
